@@ -31,7 +31,19 @@ RULE = ("library: interpolating Lin/Cubic/Akima splines on uniform and "
         "in-space data. A spline case is non-trivial when it has more than the "
         "minimum number of points and non-constant ordinates; a csg_resample "
         "scenario when the output was compared at >= 3 points. distinct = "
-        "hash of the canonical input; shards use disjoint seeds. Every "
+        "hash of the canonical input; shards use disjoint seeds. "
+        "csg_resample grids wider than the data (up to 1.5 grid lengths on "
+        "either side) with --derivative for every type x boundary (+fit): "
+        "5-point differences of the value table outside the data "
+        "(*/derivative-outside-data). Object reuse (*-reuse/*): one spline "
+        "object Interpolate()d / Fit()ted 2-3 times with other sizes, grids, "
+        "ordinates and boundary settings (setBC / setBCInt), Fit after "
+        "Interpolate and vice versa, GenerateGrid+Fit twice, must answer like "
+        "a fresh object (value, derivative, grid; inside, on knots, outside); "
+        "one Table resized/set, loaded, cleared, smoothed (a then b = a+b) and "
+        "gridded twice. Grid sizes: an integer number of steps up to rounding "
+        "(decimal grids 0:0.1:0.7, 0.05:0.05:1.25, ...) must give "
+        "round((max-min)/step)+1 points with x_i = min+i*step. Every "
         "periodic family has its own violation keys (cubic-periodic/*, "
         "akima-periodic/*, fit/cubic-periodic/*, resample/*-periodic/*).")
 
@@ -66,6 +78,21 @@ LIB_PLAN = [  # part, type, shards, quick n, thorough n   (n = cases per shard)
     ("fit", "linear", 1, 300, 8000),
     ("fit", "cubic", 3, 250, 5000),
     ("table", "x", 1, 300, 8000),
+    ("reuse", "linear", 1, 300, 12000),
+    ("reuse", "cubic", 1, 300, 6000),
+    ("reuse", "akima", 1, 300, 12000),
+    ("reuse", "table", 1, 300, 12000),
+]
+
+
+# csg_resample with an output grid wider than the data: type, --boundaries, fit
+OUTSIDE_COMBOS = [
+    ("akima", "periodic", False), ("akima", None, False),
+    ("cubic", "periodic", False), ("cubic", "natural", False),
+    ("linear", "periodic", False), ("linear", None, False),
+    ("linear", "derivativezero", False),
+    ("linear", None, True), ("cubic", "natural", True),
+    ("cubic", "periodic", True), ("cubic", "derivativezero", True),
 ]
 
 
@@ -268,19 +295,22 @@ class Scenario:
     def run(self):
         try:
             fam = self.idx % 10
-            if fam in (0, 1, 2):
+            if fam in (0, 1):
                 self.sc_interp(periodic=False)
-            elif fam in (3, 4, 5):
-                self.sc_fine()
-            elif fam in (6, 7):
-                self.sc_fit()
-            elif fam == 8:
+            elif fam == 2:
                 self.sc_interp(periodic=True)
-            else:
-                if self.idx % 20 == 9:
+            elif fam in (3, 4):
+                self.sc_fine()
+            elif fam in (5, 6):
+                self.sc_fit()
+            elif fam == 7:
+                if self.idx % 40 == 7:
                     self.sc_left()
                 else:
                     self.sc_outside()
+            else:
+                self.sc_outside_der(((self.idx // 10) * 2 + fam - 8)
+                                    % len(OUTSIDE_COMBOS))
         finally:
             shutil.rmtree(self.dir, ignore_errors=True)
         return self.res
@@ -489,6 +519,115 @@ class Scenario:
         if n >= 3:
             self.res["nontrivial"] += 1
 
+    def sc_outside_der(self, combo):
+        """output grid (much) wider than the data / the fit grid on both sides,
+        with --derivative: outside the data the derivative table must still be
+        the finite-difference derivative of the value table (5-point stencil,
+        exact for the extrapolated end polynomial)"""
+        r = self.rng
+        t, bnd, fit = OUTSIDE_COMBOS[combo]
+        nmin = 40 if fit else {"linear": 2, "cubic": 3, "akima": 4}[t]
+        self.gen_input(r.choice([0, 0, 3]), periodic=(bnd == "periodic"),
+                       nmin=nmin)
+        while self.n > 40:                       # keep the tables small
+            self.n //= 2
+            self.xm, self.xs = self.xm[:self.n], self.xs[:self.n]
+            self.ys, self.fl = self.ys[:self.n], self.fl[:self.n]
+            if bnd == "periodic":
+                self.ys[-1] = self.ys[0]
+            self.write_input()
+        # fine output grid: 9-point stencils must fit between two knots of
+        # whatever piecewise continuation the tool uses outside the data
+        m = r.choice([c for c in (10, 16, 20, 25) if self.hm % c == 0])
+        sm = self.hm // m
+        j0, j1, k = 0, self.n - 1, 1
+        args_fit = []
+        if fit:
+            k = r.choice([4, 5, 8, 10])
+            ngf = r.randint(4, max(4, (self.n - 1) // k + 1))
+            ngf = min(ngf, (self.n - 1) // k + 1)
+            j0 = r.randint(0, self.n - 1 - (ngf - 1) * k)
+            j1 = j0 + (ngf - 1) * k
+            args_fit = ["--fitgrid", "%s:%s:%s" % (dec(self.xm[j0]),
+                                                   dec(k * self.hm),
+                                                   dec(self.xm[j1]))]
+        span = (j1 - j0) * m                     # data range in output steps
+        far = max(10, int(1.5 * span))
+        el = r.choice([r.randint(10, 16), r.randint(10, max(10, far))])
+        er = r.choice([r.randint(10, 16), r.randint(10, max(10, far))])
+        gmin = self.xm[j0] - el * sm
+        gmax = self.xm[j1] + er * sm
+        args = ["--in", "in.tab", "--out", "out.tab", "--grid",
+                "%s:%s:%s" % (dec(gmin), dec(sm), dec(gmax)), "--type", t,
+                "--derivative", "der.tab"] + args_fit
+        if bnd:
+            args += ["--boundaries", bnd]
+        self.desc = {"family": "grid-wider-than-data+derivative", "args": args}
+        pref = ("resample/" + ("fit-" if fit else "") + t +
+                ("-" + bnd if bnd in ("periodic", "derivativezero") else ""))
+        rr = self.tool(args, pref)
+        if rr.rc != 0 or rr.timed_out:
+            return
+        xo, yo, fo = read_table(os.path.join(self.dir, "out.tab"))
+        xd, yd, fd = read_table(os.path.join(self.dir, "der.tab"))
+        fam = pref.replace("/", "_") + "_wider_than_data"
+        self.count(fam)
+        if not self.check_grid(pref, xo, gmin * 1e-6, sm * 1e-6, gmax * 1e-6):
+            return
+        if len(yd) != len(yo):
+            self.viol(pref + "/derivative-outside-data", "derivative table has "
+                      "a different number of rows", got=len(yd),
+                      expected=len(yo))
+            return
+        # magnitudes of the terms of the extrapolated end polynomial
+        Y, Mx, xa = self.scales()
+        h = self.hm * 1e-6
+        K2 = max([abs(self.ys[i + 1] - 2 * self.ys[i] + self.ys[i - 1])
+                  for i in range(1, self.n - 1)] + [0.0]) / (h * h)
+        he = k * h
+        s = sm * 1e-6
+        i_first, i_last = el, el + span
+        ncmp = 0
+        for i in range(4, len(xo) - 4):
+            if i + 4 <= i_first:
+                d = (i_first - i + 4) * s + he
+            elif i - 4 >= i_last:
+                d = (i - i_last + 4) * s + he
+            else:
+                continue
+            q = d / he
+            terms = Y + Mx * d * (1 + q + q * q) + 3 * K2 * d * d * (1 + q)
+            noise = 1e-13 * terms
+            num = (-yo[i + 2] + 8 * yo[i + 1] - 8 * yo[i - 1] + yo[i - 2]) / (12 * s)
+            ym = max(abs(yo[j]) for j in range(i - 2, i + 3))
+            tol = 3 * (1.5 * (5e-10 * ym + noise) / s) + 2e-9 * abs(yd[i]) + 1e-300
+            # the same formula with the double step and the two one-sided
+            # 4-point formulas: all are exact for one cubic piece; where they
+            # disagree the value output is not one smooth piece across the
+            # stencil (kink or knot of whatever continuation the tool uses
+            # outside the data) and a difference quotient says nothing
+            num2 = (-yo[i + 4] + 8 * yo[i + 2] - 8 * yo[i - 2] + yo[i - 4]) / (24 * s)
+            fwd = (-11 * yo[i] + 18 * yo[i + 1] - 9 * yo[i + 2] + 2 * yo[i + 3]) / (6 * s)
+            bwd = (11 * yo[i] - 18 * yo[i - 1] + 9 * yo[i - 2] - 2 * yo[i - 3]) / (6 * s)
+            ym2 = max(abs(yo[j]) for j in range(i - 4, i + 5))
+            gate = tol + 7 * (5e-10 * ym2 + noise) / s
+            if not (abs(num - num2) <= gate and abs(num - fwd) <= gate
+                    and abs(num - bwd) <= gate):
+                self.counter("outside_stencil_not_smooth_not_judged")
+                continue
+            ncmp += 1
+            if not abs(num - yd[i]) <= tol:
+                self.viol(pref + "/derivative-outside-data", "outside the data "
+                          "the --derivative output differs from the "
+                          "finite-difference derivative of the value output",
+                          index=i, x=xo[i], data_first=self.xs[j0],
+                          data_last=self.xs[j1], derivative=yd[i],
+                          finite_difference=num, tolerance=tol)
+                break
+        self.count(fam + "_derivative_points", ncmp)
+        if ncmp >= 3:
+            self.res["nontrivial"] += 1
+
     def sc_left(self):
         """output grid entirely left of the data (pure extrapolation)"""
         t = self.typ()
@@ -638,7 +777,7 @@ def run(chk):
     from concurrent.futures import ThreadPoolExecutor
     with ThreadPoolExecutor(max_workers=1) as ex:
         fut = ex.submit(vf.run_parallel, jobs)
-        run_resample(chk, vf.tier_n(chk.tier, 60, 1500))
+        run_resample(chk, vf.tier_n(chk.tier, 100, 1500))
         lib = fut.result()
     for name, res in zip(names, lib):
         if not chk.ingest(res, name):
